@@ -110,6 +110,16 @@ def catalogue(ctx, thorough):
             for pos in range(1, len(base) + 1):
                 ops = copy.deepcopy(base[:pos]) + [{"op": "fclose"}] * nclose + copy.deepcopy(base[pos:])
                 cases.append({"cfg": {"sb": 2, "rb": "", "style": 0, "tag": "C16-closed" }, "ops": ops})
+        # the same on a writer that was opened for modification (a second session): handles of the session, the writer itself
+        dsets = [o["p"] for o in base if o["op"] == "mkds"]
+        for sb in (2, 0, 3):
+            for nclose in (1, 2):
+                ops = copy.deepcopy(base) + [{"op": "session"}] + [{"op": "opends", "p": p} for p in dsets] + [{"op": "fclose"}] * nclose
+                for p in dsets[:2]:
+                    ops += [{"op": "attr", "p": p, "n": "late", "v": "i32"}, {"op": "delattr", "p": p, "n": "a"}, {"op": "write", "p": p, "data": "seq"}]
+                ops += [{"op": "mkgroup", "p": "/lateg"}, {"op": "slink", "p": "/lates", "t": "/x"}, {"op": "hlink", "p": "/lateh", "t": dsets[0]},
+                        {"op": "mkds", "p": "/lated", "dt": "i32", "dims": [2]}, {"op": "xlink", "p": "/latex", "f": "o.h5", "t": "/x"}, {"op": "opends", "p": dsets[0]}]
+                cases.append({"cfg": {"sb": sb, "rb": "", "style": 0, "tag": "C16-closed-session"}, "ops": ops})
     # header-capacity point: a hard link needs a reference-count message in the target's header; with one
     # attribute of the right size the header is too full for it and the link call must fail without a trace
     for L in range(120, 175):
